@@ -21,7 +21,7 @@ From EF Require Import Model.Base Gen.Tables Model.Lexer Model.Ast Model.Code Mo
                        Model.Reflect Model.Builtins
                        Model.Compiler Model.VM Model.Verifier Spec.Eval Spec.Moded.
 From EF Require Import Proofs.ExprProofs Proofs.StmtProofs Proofs.StructProofs.
-From EF Require Proofs.ContainerProofs Proofs.VerifierProofs Proofs.PollProofs.
+From EF Require Proofs.ContainerProofs Proofs.VerifierProofs Proofs.PollProofs Proofs.OptSafeProofs.
 Open Scope N_scope.
 
 Module VP := EF.Proofs.VerifierProofs.
@@ -1557,3 +1557,751 @@ Proof.
     split; [exact (mp_stmts_step f IHs IHb)|]. split; [exact (mp_case_exprs_step f IHe IHbb IHce)|].
     split; [exact (mp_cases_step f IHce IHc)|exact (mp_defaults_step f IHbb IHd)].
 Qed.
+
+(* ------------------------------------------------------------------ *)
+(* PART 6: from annotated segments to the verifier's `check` *)
+
+Fixpoint aflows (a : ann) (len : N) (is : list instr) : Prop :=
+  match is with
+  | [] => True
+  | i :: rest => VP.flow_ok a len i (VP.nexti rest) /\ aflows a len rest
+  end.
+
+Lemma check_intro : forall consts all len a is0,
+  Forall (VP.struct_ok consts all len) is0 -> aflows a len is0 -> check consts is0 all len a = VOk.
+Proof.
+  intros consts all len a. induction is0 as [|i rest IH]; intros HS HF; [reflexivity|].
+  inversion HS as [|x l (S1 & S2 & S3) HS']; subst. destruct HF as (F & HF').
+  cbn [check].
+  assert (C1 : ((iop i =? OpJump) || (iop i =? OpJumpIfFalse)) &&
+               negb (is_start all (iarg i) && (iarg i <? len)) = false).
+  { destruct ((iop i =? OpJump) || (iop i =? OpJumpIfFalse)) eqn:E; [|reflexivity].
+    apply orb_true_iff in E.
+    assert (J : iop i = OpJump \/ iop i = OpJumpIfFalse) by (destruct E as [E|E]; apply N.eqb_eq in E; auto).
+    destruct (S1 J) as (Hs & Hl). apply N.ltb_lt in Hl. rewrite Hs, Hl. reflexivity. }
+  rewrite C1.
+  assert (C2 : (iop i =? OpConstant) && negb (iarg i <? lenN consts) = false).
+  { destruct (iop i =? OpConstant) eqn:E; [|reflexivity]. apply N.eqb_eq in E.
+    specialize (S2 E). apply N.ltb_lt in S2. rewrite S2. reflexivity. }
+  rewrite C2.
+  assert (C3 : ((iop i =? OpLookup) || (iop i =? OpInc) || (iop i =? OpDec)) &&
+               negb (match nthN consts (iarg i) with Some (VStr _) => true | _ => false end) = false).
+  { destruct ((iop i =? OpLookup) || (iop i =? OpInc) || (iop i =? OpDec)) eqn:E; [|reflexivity].
+    apply orb_true_iff in E. destruct E as [E|E]; [apply orb_true_iff in E|].
+    - assert (J : iop i = OpLookup \/ iop i = OpInc \/ iop i = OpDec)
+        by (destruct E as [E|E]; apply N.eqb_eq in E; auto).
+      destruct (S3 J) as (s & Hs). rewrite Hs. reflexivity.
+    - apply N.eqb_eq in E. destruct (S3 (or_intror (or_intror E))) as (s & Hs). rewrite Hs. reflexivity. }
+  rewrite C3.
+  destruct (ann_get a (iip i)) as [d|] eqn:Ha; [|apply IH; assumption].
+  destruct (F d Ha) as (Hp & es & He & Hes).
+  apply N.ltb_ge in Hp. rewrite Hp.
+  change (match rest with j :: _ => Some j | [] => None end) with (VP.nexti rest). rewrite He.
+  assert (Hfb : forallb (fun e => match ann_get a (fst e) with
+                                  | Some b => b <=? snd e
+                                  | None => len <=? fst e end) es = true).
+  { apply forallb_forall. intros e Hin. rewrite Forall_forall in Hes. specialize (Hes e Hin).
+    unfold VP.edge_ok in Hes. destruct (ann_get a (fst e)); apply N.leb_le; exact Hes. }
+  rewrite Hfb. apply IH; assumption.
+Qed.
+
+Definition ann_of (f : N -> N) (is : list instr) : ann := map (fun i => (iip i, f (iip i))) is.
+
+Lemma ann_of_get : forall f is t,
+  (st is t -> ann_get (ann_of f is) t = Some (f t)) /\ (~ st is t -> ann_get (ann_of f is) t = None).
+Proof.
+  intros f is t. induction is as [|i is (IH1 & IH2)].
+  - split; [intros (i & [] & _)|reflexivity].
+  - cbn [ann_of map ann_get]. destruct (N.eqb_spec (iip i) t) as [E|E].
+    + split; [intros _; rewrite E; reflexivity|]. intro H. exfalso. apply H. apply st_cons_iff. left. exact E.
+    + split.
+      * intro H. apply st_cons_iff in H. destruct H as [H|H]; [contradiction|]. apply IH1. exact H.
+      * intro H. apply IH2. intro K. apply H. apply st_cons_iff. right. exact K.
+Qed.
+
+(* what `check` accepts, with the entry at depth 0 *)
+Definition has_ann (consts : list value) (code : list N) : Prop :=
+  exists is a, decode (S (List.length code)) code 0 [] = (VOk, is) /\
+               ann_get a 0 = Some 0 /\ check consts is is (lenN code) a = VOk.
+
+Lemma body_has_ann : forall cs code, body_ok cs code -> body_ann code -> has_ann cs code.
+Proof.
+  intros cs code (is0 & D0 & K0) (dout & is & f & D & En & F).
+  pose proof (dec_decode _ _ _ D (S (List.length code)) [] (Nat.lt_succ_diag_r _)) as D'.
+  cbn [rev app] in D'. rewrite D0 in D'. injection D' as ->.
+  destruct is as [|i0 is'] eqn:Eis.
+  { exists [], [(0, 0)]. split; [exact D0|split; reflexivity]. }
+  rewrite <- Eis in *.
+  assert (Hne : is <> []) by (rewrite Eis; discriminate).
+  assert (Hs0 : st is 0) by (destruct (dec_base _ _ _ D) as [H|[_ H]]; [exact H|contradiction]).
+  assert (Hf0 : f 0 = 0) by (rewrite Eis in En; cbn [entry] in En; lia).
+  set (a := ann_of f is).
+  exists is, a. split; [exact D0|split].
+  - unfold a. rewrite (proj1 (ann_of_get f is 0) Hs0), Hf0. reflexivity.
+  - apply check_intro.
+    + eapply Forall_impl; [|exact K0]. intros i (_ & H1 & H2 & H3). split; [exact H1|split; [exact H2|exact H3]].
+    + assert (G : forall suf, (forall i, In i suf -> In i is) ->
+                    flows f (segP f is (0 + lenN code) dout noX) suf -> aflows a (lenN code) suf).
+      { induction suf as [|i suf IH]; intros Hin Hfl; [exact I|].
+        cbn [flows aflows] in *. destruct Hfl as ((Hp & es & He & Hes) & Hfl). split.
+        - intros d Hd.
+          assert (Hsi : st is (iip i)) by (exists i; split; [apply Hin; left; reflexivity|reflexivity]).
+          unfold a in Hd. rewrite (proj1 (ann_of_get f is (iip i)) Hsi) in Hd. injection Hd as <-.
+          split; [exact Hp|]. exists es. split; [exact He|].
+          eapply Forall_impl; [|exact Hes]. intros [t n] HP. cbn [fst snd] in HP.
+          unfold VP.edge_ok. cbn [fst snd]. destruct HP as [(Hst & Hle)|[(Et & Hle)|[]]].
+          + unfold a. rewrite (proj1 (ann_of_get f is t) Hst). exact Hle.
+          + assert (Hns : ~ st is t).
+            { intro Hst. destruct (st_range _ _ _ _ D Hst) as (_ & Hlt). lia. }
+            unfold a. rewrite (proj2 (ann_of_get f is t) Hns). lia.
+        - apply IH; [intros j Hj; apply Hin; right; exact Hj|exact Hfl]. }
+      apply G; [auto|exact F].
+Qed.
+
+(* ------------------------------------------------------------------ *)
+(* PART 7: the theorems *)
+
+(* `well_moded` fixes a large fuel; it is used only through this lemma.  (The proof
+   goes through the contrapositive so that the kernel unfolds `well_moded`, not the
+   fuelled fixpoint, when it checks the conversion.) *)
+Lemma well_moded_block : forall ast, well_moded ast = true -> exists g, moded_block g ast = true.
+Proof.
+  intros ast H.
+  pose (g := ltac:(let t := eval unfold well_moded in (well_moded ast) in
+                   match t with moded_block ?g _ => exact g end)).
+  destruct (moded_block g ast) eqn:E; [exists g; exact E|].
+  exfalso.
+  assert (E' : well_moded ast = false) by exact E.
+  rewrite H in E'. discriminate.
+Qed.
+
+Lemma compiled_bodies_ann : forall fuel (ast : program) p,
+  well_moded ast = true -> compile_program fuel ast = CompOk p ->
+  body_ann (pmain p) /\ Forall (fun nf => body_ann (fcode (snd nf))) (pfuncs p).
+Proof.
+  intros fuel ast p Hw H. unfold compile_program in H.
+  destruct (compile_block fuel ast (mkC [] 0 [] [])) as [[] c| | |] eqn:E; try discriminate.
+  destruct (fits16 _) eqn:Ef in H; try discriminate. injection H as <-.
+  cbn [pconsts pmain pfuncs]. unfold fits16 in Ef. cbn [pconsts pmain pfuncs] in Ef.
+  apply andb_true_iff in Ef. destruct Ef as (Ef & Ef3).
+  apply andb_true_iff in Ef. destruct Ef as (Ef1 & Ef2).
+  apply N.leb_le in Ef1.
+  destruct (moded_all_fuel fuel) as (_ & _ & _ & _ & _ & Pb & _).
+  apply mp_block_of_stmts in Pb.
+  assert (Hc0 : cstate_ok (mkC [] 0 [] [])) by reflexivity.
+  destruct (well_moded_block ast Hw) as (g & Hg).
+  destruct (Pb g ast _ c 0 Hc0 E Hg) as (dout & _ & ch & Em & F & S).
+  assert (Hc : cstate_ok c) by apply Em.
+  assert (Hch : rev (crev c) = ch).
+  { destruct Em as (_ & _ & Em). unfold emitted in Em. cbn [crev rev app] in Em. exact Em. }
+  assert (sm : sml c).
+  { unfold sml. unfold cstate_ok in Hc. rewrite Hc, <- lenN_rev. exact Ef1. }
+  split.
+  - exists dout. rewrite Hch. exact (S sm).
+  - assert (FAc : FA (funcs c)) by (apply F; constructor).
+    unfold FA in FAc. rewrite Forall_forall in *. rewrite forallb_forall in Ef3.
+    intros nf Hnf. apply (FAc nf Hnf). apply N.leb_le. exact (Ef3 nf Hnf).
+Qed.
+
+(* (B) every body compiled from a well-moded script carries an annotation, 0 at the entry,
+   that the verifier's final check accepts *)
+Theorem compiled_has_annotation : forall fuel (ast : program) p,
+  well_moded ast = true -> compile_program fuel ast = CompOk p ->
+  has_ann (pconsts p) (pmain p) /\
+  Forall (fun nf => has_ann (pconsts p) (fcode (snd nf))) (pfuncs p).
+Proof.
+  intros fuel ast p Hw H.
+  destruct (compile_structure fuel ast p H) as (Sm & Sf).
+  destruct (compiled_bodies_ann fuel ast p Hw H) as (Am & Af).
+  split; [apply body_has_ann; assumption|].
+  rewrite Forall_forall in *. intros nf Hnf. apply body_has_ann; [apply (Sf nf Hnf)|apply (Af nf Hnf)].
+Qed.
+
+(* a body, as the theorems below name it: the main body or the code of a function in the table *)
+Definition body_of (p : program_code) (code : list N) : Prop :=
+  code = pmain p \/ exists nf, In nf (pfuncs p) /\ code = fcode (snd nf).
+
+Lemma body_of_has_ann : forall fuel (ast : program) p code,
+  well_moded ast = true -> compile_program fuel ast = CompOk p -> body_of p code ->
+  has_ann (pconsts p) code.
+Proof.
+  intros fuel ast p code Hw H Hb. destruct (compiled_has_annotation fuel ast p Hw H) as (Hm & Hf).
+  destruct Hb as [->|(nf & Hin & ->)]; [exact Hm|]. rewrite Forall_forall in Hf. exact (Hf nf Hin).
+Qed.
+
+Definition call_free (code : list N) : Prop :=
+  forall is, decode (S (List.length code)) code 0 [] = (VOk, is) -> Forall (fun i => iop i <> OpCall) is.
+
+(* any accepted annotation with entry 0 makes a call-free body safe (VerifierProofs.sound_gen) *)
+Lemma has_ann_sound_callfree : forall o consts funcs fns obj code,
+  has_ann consts code -> call_free code ->
+  forall fuel m out m', stk m = [] ->
+  exec o consts funcs fns obj fuel code 0 m = (out, m') -> out <> OErr EInternal.
+Proof.
+  intros o consts funcs fns obj code (is & a & D & Ha & Hck) Hcf fuel m out m' Hs H.
+  pose proof (VP.decode_ok_chain _ _ D) as Hc. specialize (Hcf is D).
+  destruct is as [|i0 is'].
+  - cbn [VP.chain] in Hc. destruct fuel as [|f].
+    + cbn [exec] in H. unfold fail in H. injection H as <- _. discriminate.
+    + rewrite PollProofs.exec_S in H. rewrite <- Hc in H. cbn in H. injection H as <- _. discriminate.
+  - eapply (VP.sound_gen o consts funcs fns obj code (i0 :: is') a Hc Hck Hcf); [|exact H].
+    left. right. exists [], i0, is', 0. cbn [VP.chain] in Hc. destruct Hc as (H0 & _).
+    repeat split; auto. lia.
+Qed.
+
+(* (B') compiled call-free bodies of well-moded scripts never underflow *)
+Theorem compiled_never_underflows_callfree : forall fuelc (ast : program) p code,
+  well_moded ast = true -> compile_program fuelc ast = CompOk p -> body_of p code -> call_free code ->
+  forall o funcs fns obj fuel m out m', stk m = [] ->
+  exec o (pconsts p) funcs fns obj fuel code 0 m = (out, m') -> out <> OErr EInternal.
+Proof.
+  intros fuelc ast p code Hw H Hb Hcf o funcs fns obj fuel m out m' Hs He.
+  eapply has_ann_sound_callfree; [eapply body_of_has_ann; eassumption|exact Hcf|exact Hs|exact He].
+Qed.
+
+(* ------------------------------------------------------------------ *)
+(* PART 8: bodies with calls.
+   The verifier assumes that a call leaves one value.  A host or user function
+   that returns nothing (VVoid) leaves none, and an underflow that follows is
+   the script's own doing.  `calls_push` says of one run - by recursion on the
+   fuel, mirroring `exec` through the one-step function of OptSafeProofs.v -
+   that every OpCall executed in it (in this body and, transitively, in the
+   callees) did leave a value.  Under that condition no accepted body ends in
+   the machine's internal error. *)
+
+Module OS := EF.Proofs.OptSafeProofs.
+
+Section Calls.
+Variables (o : stdlib) (consts : list value) (funcs : list (str * ufunc)) (fns : fnmap) (obj : hostval).
+
+Notation ex := (exec o consts funcs fns obj).
+Notation stp := (OS.step o consts fns obj).
+
+Fixpoint calls_push (fuel : nat) (code : list N) (ip : N) (m : mstate) : Prop :=
+  match fuel with
+  | O => True
+  | S f =>
+      match stp code ip m with
+      | OS.SFin _ _ => True
+      | OS.SNext ip' m' =>
+          (* a built-in or host function was called: arg + 1 values popped, one pushed *)
+          (byte_at code ip = Some OpCall -> forall arg, operand_at code ip = Some arg ->
+             lenN (stk m') + arg = lenN (stk m)) /\
+          calls_push f code ip' m'
+      | OS.SCall name args s m1 next =>
+          match ufunc_get name funcs with
+          | None => True
+          | Some uf =>
+              if negb (Nat.eqb (List.length (fparams uf)) (List.length args)) then True
+              else if negb (max_call_depth =? 0) && (max_call_depth <=? N.of_nat (env_depth (menv m1)))
+              then True
+              else
+                let mc := mkM [] (declare_all (env_push_frame (menv m1)) (fparams uf) args)
+                              (trace m1) (polls m1) in
+                calls_push f (fcode uf) 0 mc /\
+                match ex f (fcode uf) 0 mc with
+                | (ODone out, m2) =>
+                    out <> VVoid /\
+                    calls_push f code next
+                      (mkM (out :: s) (env_truncate (menv m2) (env_depth (menv m1))) (trace m2) (polls m2))
+                | (OErr _, _) => True
+                end
+          end
+      end
+  end.
+
+Section Body.
+Variables (code : list N) (is : list instr) (a : ann).
+Hypothesis Hchain : VP.chain code 0 is.
+Hypothesis Hcheck : check consts is is (lenN code) a = VOk.
+
+Notation good := (VP.good code is a).
+Notation Inv := (VP.Inv code is a).
+
+Lemma start_split' : forall t, is_start is t = true -> exists pre i rest, is = pre ++ i :: rest /\ iip i = t.
+Proof.
+  intros t H. unfold is_start in H. apply existsb_exists in H. destruct H as (i & Hin & E).
+  apply N.eqb_eq in E. apply in_split in Hin. destruct Hin as (pre & rest & ->).
+  exists pre, i, rest. split; [reflexivity|exact E].
+Qed.
+
+Lemma flow_good' : forall pre i rest d,
+  is = pre ++ i :: rest -> ann_get a (iip i) = Some d ->
+  pops i <= d /\ exists es, edges i (VP.nexti rest) d = Some es /\ Forall (fun e => good (fst e) (snd e)) es.
+Proof.
+  intros pre i rest d E Ha.
+  destruct (VP.check_spec _ _ _ _ _ Hcheck pre i rest E) as (S & F).
+  destruct (F d Ha) as (Hp & es & He & Hes). split; [exact Hp|]. exists es. split; [exact He|].
+  assert (T : Forall (fun e => VP.startish code is (fst e)) es).
+  { destruct S as (S1 & _ & _).
+    pose proof (VP.next_startish _ _ Hchain _ _ _ E) as Nx.
+    pose proof (VP.at_chain _ _ Hchain _ _ _ E) as C. cbn [VP.chain] in C.
+    destruct C as (_ & _ & _ & _ & Hl & _ & C).
+    unfold edges in He.
+    destruct (N.eqb_spec (iop i) OpReturn) as [E1|E1]; [injection He as <-; constructor|].
+    destruct (N.eqb_spec (iop i) OpJump) as [E2|E2].
+    { injection He as <-. constructor; [|constructor]. cbn [fst]. right. apply start_split', S1. auto. }
+    destruct (N.eqb_spec (iop i) OpJumpIfFalse) as [E3|E3].
+    { injection He as <-. constructor; [|constructor; [|constructor]]; cbn [fst].
+      - rewrite E3, VP.op_len_jif in Hl. rewrite <- Hl. exact Nx.
+      - right. apply start_split', S1. auto. }
+    destruct (N.eqb_spec (iop i) OpIterationNext) as [E4|E4].
+    { destruct rest as [|j rest']; cbn [VP.nexti] in He; [discriminate|].
+      destruct (N.eqb_spec (iop j) OpJumpIfFalse) as [E5|E5]; [|discriminate].
+      injection He as <-.
+      assert (Ej : is = (pre ++ [i]) ++ j :: rest') by (rewrite <- app_assoc; exact E).
+      destruct (VP.check_spec _ _ _ _ _ Hcheck _ j rest' Ej) as ((Sj & _ & _) & _).
+      pose proof (VP.next_startish _ _ Hchain _ _ _ Ej) as Nj.
+      pose proof (VP.at_chain _ _ Hchain _ _ _ Ej) as Cj. cbn [VP.chain] in Cj.
+      destruct Cj as (_ & _ & _ & _ & Hlj & _).
+      rewrite E5, VP.op_len_jif in Hlj. rewrite Hlj in Nj.
+      constructor; [|constructor; [|constructor]]; cbn [fst]; [exact Nj|]. right. apply start_split', Sj. auto. }
+    injection He as <-. constructor; [|constructor]. cbn [fst]. exact Nx. }
+  rewrite Forall_forall in *. intros [t n] Hin. cbn [fst snd].
+  apply VP.edge_good; [apply (Hes _ Hin)|apply (T _ Hin)].
+Qed.
+
+(* what one instruction may do, from a state the annotation covers *)
+Definition iok (i : instr) (m : mstate) (r : OS.ires) : Prop :=
+  match r with
+  | OS.IFin out _ => out <> OErr EInternal
+  | OS.IFall m' =>
+      (iop i = OpCall -> lenN (stk m') + iarg i = lenN (stk m)) -> Inv (iip i + ilen i) m'
+  | OS.IJump m' => good (iarg i) (lenN (stk m')) /\ iarg i < lenN code
+  | OS.ICall _ _ s => good (iip i + ilen i) (lenN s + 1)
+  end.
+
+Ltac ev_goal :=
+  repeat (match goal with
+          | |- context [binop_of_opcode ?x] =>
+              let v := eval vm_compute in (binop_of_opcode x) in
+              match v with Some _ => idtac | None => idtac end; change (binop_of_opcode x) with v
+          | |- context [if ?c then _ else _] =>
+              let v := eval vm_compute in c in
+              match v with true => idtac | false => idtac end; change c with v
+          end; cbv beta iota zeta).
+
+Ltac ev_in H :=
+  repeat (match type of H with
+          | context [if ?c then _ else _] =>
+              let v := eval vm_compute in c in
+              match v with true => idtac | false => idtac end; change c with v in H
+          end; cbv beta iota zeta in H).
+
+Hint Resolve VP.name_of_ni VP.lookup_ni VP.lookup1_ni VP.lookup2_ni VP.vm_binop_ni VP.vm_case_ni
+             VP.vm_index_ni VP.vm_minus_ni VP.vm_sqrt_ni VP.vm_range_ni VP.iter_next_ni VP.of_bres_ni : ni.
+
+Ltac ni :=
+  first [ discriminate
+        | let X := fresh in intro X; injection X as ->; exfalso; eauto with ni ].
+
+Ltac lens := unfold lenN in *; cbn [List.length] in *; lia.
+
+Ltac crunch_res :=
+  repeat (cbv beta iota zeta;
+          match goal with
+          | |- iok _ _ (match ?x with _ => _ end) => destruct x eqn:?
+          end);
+  cbv beta iota zeta.
+
+Ltac use_good :=
+  match goal with
+  | G : VP.good _ _ _ ?t _ |- VP.good _ _ _ ?t _ => eapply VP.good_mono; [exact G|lens]
+  end.
+
+Ltac leaf :=
+  lazymatch goal with
+  | |- iok _ _ (OS.IFall _) =>
+      unfold iok; cbn [iip iop iarg ilen]; intros _; left; unfold push, set_stk; cbn [stk]; use_good
+  | |- iok _ _ (OS.IJump _) =>
+      unfold iok; cbn [iip iop iarg ilen]; split; [unfold push, set_stk; cbn [stk]; use_good|assumption]
+  | |- iok _ _ (OS.IFin _ _) => unfold iok, fail; ni
+  end.
+
+Lemma host_call_ni : forall k args, host_call k args = Err EInternal -> False.
+Proof. intros k args. destruct k; discriminate. Qed.
+
+Lemma instr_good : forall pre i rest d m,
+  is = pre ++ i :: rest -> ann_get a (iip i) = Some d -> d <= lenN (stk m) ->
+  iok i m (OS.instr o consts fns obj (iop i) (iarg i) m).
+Proof.
+  intros pre i rest d m E Ha Hd.
+  pose proof (VP.at_chain _ _ Hchain _ _ _ E) as C. cbn [VP.chain] in C.
+  destruct C as (_ & Hlt & Hk & Hb & Hl & Hop & Hnext).
+  destruct (VP.check_spec _ _ _ _ _ Hcheck pre i rest E) as ((S1 & S2 & S3) & _).
+  destruct (flow_good' _ _ _ _ E Ha) as (Hp & es & He & Hg).
+  unfold OS.instr. cbv beta zeta.
+  destruct i as [ip0 op arg ln]. destruct m as [st en tr po].
+  cbn [iip iop iarg ilen stk menv trace polls] in *.
+  unfold known_ops, memN in Hk.
+  repeat (apply orb_true_iff in Hk; destruct Hk as [Hk|Hk]; [apply N.eqb_eq in Hk; subst op|]);
+    [..|discriminate].
+  all: vm_compute in Hl; subst ln.
+  all: cbv [edges pops pushes iip iop iarg ilen] in He, Hp; ev_in He; ev_in Hp.
+  all: ev_goal.
+  all: try (pose proof (S1 (or_introl eq_refl)) as [_ Sj]).
+  all: try (pose proof (S1 (or_intror eq_refl)) as [_ Sj]).
+  all: try (destruct (VP.nthN_lt _ _ (S2 eq_refl)) as [cv Hcv]; rewrite Hcv).
+  all: try (destruct (S3 (or_introl eq_refl)) as [sv Hsv]; rewrite Hsv).
+  all: try (destruct (S3 (or_intror (or_introl eq_refl))) as [sv Hsv]; rewrite Hsv).
+  all: try (destruct (S3 (or_intror (or_intror eq_refl))) as [sv Hsv]; rewrite Hsv).
+  all: clear S1 S2 S3.
+  all: lazymatch type of Hb with
+       | _ = Some OpArray =>
+           injection He as <-; apply VP.Forall_1 in Hg; cbv beta iota delta [fst snd] in Hg;
+           let el := fresh "el" in let s' := fresh "s'" in let Ep := fresh "Ep" in let L := fresh "L" in
+           destruct (VP.pop_n_ok (N.to_nat arg) st []) as (el & s' & Ep & L); [lens|];
+           rewrite Ep; cbv beta iota zeta; leaf
+       | _ = Some OpHash =>
+           let q := fresh "q" in let q2 := fresh "q2" in let Hq := fresh "Hq" in let Hq2 := fresh "Hq2" in
+           remember ((arg + 1) / 2) as q eqn:Hq; clear Hq;
+           remember (2 * q) as q2 eqn:Hq2;
+           assert (Hq2' : N.to_nat q2 = (2 * N.to_nat q)%nat) by lia; clear Hq2;
+           injection He as <-; apply VP.Forall_1 in Hg; cbv beta iota delta [fst snd] in Hg;
+           let B := fresh "B" in
+           assert (B : (2 * N.to_nat q <= List.length st)%nat) by lens;
+           apply (VP.build_hash_ok o _ _ []) in B;
+           destruct (build_hash o (N.to_nat q) st []) as [[ps s']|e];
+           cbv beta iota zeta; [leaf|unfold iok; congruence]
+       | _ = Some OpIterationNext =>
+           let j := fresh "j" in let rest' := fresh "rest'" in
+           destruct rest as [|j rest']; cbn [VP.nexti] in He; [discriminate|];
+           let Ej := fresh "Ej" in
+           match type of He with context [if ?c then _ else _] => destruct c eqn:Ej end; [|discriminate];
+           apply N.eqb_eq in Ej; change (iop j = OpJumpIfFalse) in Ej;
+           injection He as <-;
+           apply VP.Forall_2 in Hg; cbv beta iota delta [fst snd] in Hg; destruct Hg as [Hg Hg2];
+           cbn [VP.chain] in Hnext; destruct Hnext as (Hj & _);
+           change (good (iip j + 3) (d - 3 + 1)) in Hg; rewrite Hj in Hg;
+           change (good (iarg j) (d - 3)) in Hg2;
+           assert (Es : is = (pre ++ [mkI ip0 OpIterationNext arg 1]) ++ j :: rest')
+             by (rewrite <- app_assoc; exact E);
+           destruct st as [|v1 [|v2 [|v3 s]]];
+           try (exfalso; lens);
+           crunch_res;
+           lazymatch goal with
+           | |- iok _ _ (OS.IFall {| stk := VBool ?b :: ?s0; menv := _; trace := _; polls := _ |}) =>
+               unfold iok; cbn [iip iop iarg ilen]; intros _;
+               right; exists (pre ++ [mkI ip0 OpIterationNext arg 1]), j, rest', b, s0;
+               cbn [stk]; repeat split; [exact Es|exact Hj|exact Ej|];
+               cbv beta iota; use_good
+           | _ => leaf
+           end
+       | _ = Some OpCall =>
+           injection He as <-; apply VP.Forall_1 in Hg; cbv beta iota delta [fst snd] in Hg;
+           let fname := fresh "fname" in let s0 := fresh "s0" in
+           destruct st as [|fname s0]; [exfalso; lens|];
+           cbv beta iota zeta;
+           let name := fresh "name" in let En := fresh "En" in
+           destruct (name_of o fname) as [name|e] eqn:En; [|leaf];
+           let args := fresh "args" in let s := fresh "s" in let Ep := fresh "Ep" in let L := fresh "L" in
+           destruct (VP.pop_n_ok (N.to_nat arg) s0 []) as (args & s & Ep & L); [lens|];
+           rewrite Ep; cbv beta iota zeta;
+           destruct (fn_get name fns) as [[bn|k]|];
+           [ destruct (call_builtin o bn args) as [r|]; [|leaf];
+             let Er := fresh "Er" in destruct (of_bres r) as [v|e] eqn:Er; [|leaf];
+             unfold iok; cbn [iip iop iarg ilen stk]; intro Hpush; specialize (Hpush eq_refl);
+             left; unfold set_stk in *; cbn [stk] in *; eapply VP.good_mono; [exact Hg|lens]
+           | let Eh := fresh "Eh" in destruct (host_call k args) as [v|e] eqn:Eh;
+             [ unfold iok; cbn [iip iop iarg ilen stk]; intro Hpush; specialize (Hpush eq_refl);
+               left; unfold set_stk in *; cbn [stk] in *; eapply VP.good_mono; [exact Hg|lens]
+             | unfold iok; intro X; injection X as ->; exact (host_call_ni _ _ Eh) ]
+           | unfold iok; cbn [iip iop iarg ilen]; eapply VP.good_mono; [exact Hg|lens] ]
+       | _ =>
+           injection He as <-;
+           try (apply VP.Forall_1 in Hg; cbv beta iota delta [fst snd] in Hg);
+           try (apply VP.Forall_2 in Hg; cbv beta iota delta [fst snd] in Hg; destruct Hg as [Hg Hg2]);
+           destruct st as [|v1 [|v2 [|v3 s]]];
+           try (exfalso; lens);
+           crunch_res; leaf
+       end.
+Qed.
+
+
+Lemma poll_stk : forall m m1, OS.poll m = Some m1 -> stk m1 = stk m.
+Proof.
+  intros m m1 H. unfold OS.poll in H. destruct (polls m) as [[|p]|]; try discriminate; injection H as <-; reflexivity.
+Qed.
+
+Lemma instr_jif : forall arg m,
+  OS.instr o consts fns obj OpJumpIfFalse arg m =
+  match stk m with
+  | c :: s => if truthy c then OS.IFall (set_stk m s) else OS.IJump (set_stk m s)
+  | [] => OS.IFin (OErr EInternal) m
+  end.
+Proof. intros. reflexivity. Qed.
+
+(* what one step may do *)
+Definition sok (ip : N) (m : mstate) (r : OS.sres) : Prop :=
+  match r with
+  | OS.SFin out _ => out <> OErr EInternal
+  | OS.SNext ip' m' =>
+      (byte_at code ip = Some OpCall -> forall arg, operand_at code ip = Some arg ->
+         lenN (stk m') + arg = lenN (stk m)) -> Inv ip' m'
+  | OS.SCall _ _ s _ next => good next (lenN s + 1)
+  end.
+
+Lemma step_sound : forall ip m, Inv ip m -> sok ip m (stp code ip m).
+Proof.
+  intros ip m HI. unfold OS.step.
+  destruct (lenN code <=? ip) eqn:L; [cbn [sok]; discriminate|]. apply N.leb_gt in L.
+  destruct (OS.poll m) as [m1|] eqn:Ep; [|cbn [sok]; discriminate].
+  pose proof (poll_stk _ _ Ep) as Es.
+  destruct HI as [[Hl|(pre & i & rest & d & E & Hi & Ha & Hd)]|(pre & j & rest & b & s' & E & Hj & Eop & Hs & Hgd)].
+  - lia.
+  - subst ip.
+    pose proof (VP.at_chain _ _ Hchain _ _ _ E) as C. cbn [VP.chain] in C.
+    destruct C as (_ & _ & _ & Hb & Hl & Hop & _).
+    rewrite Hb. rewrite <- Hl, Hop.
+    assert (Hd1 : d <= lenN (stk m1)) by (rewrite Es; exact Hd).
+    pose proof (instr_good pre i rest d m1 E Ha Hd1) as G.
+    destruct (OS.instr o consts fns obj (iop i) (iarg i) m1) as [out m'|m'|m'|name args s]; cbn [iok sok] in *.
+    + exact G.
+    + intro Hpush. apply G. intro Ec. rewrite Es. apply Hpush; [rewrite Ec in Hb; exact Hb|].
+      rewrite Ec in Hl. change (op_len OpCall) with 3 in Hl. rewrite Hl in Hop. exact Hop.
+    + destruct G as (G & Hlt). apply N.leb_gt in Hlt. rewrite Hlt. cbn [sok]. intros _. left. exact G.
+    + exact G.
+  - subst ip.
+    pose proof (VP.at_chain _ _ Hchain _ _ _ E) as C. cbn [VP.chain] in C.
+    destruct C as (_ & _ & _ & Hb & Hl & Hop & _).
+    destruct (VP.check_spec _ _ _ _ _ Hcheck pre j rest E) as ((S1 & _ & _) & _).
+    destruct (S1 (or_intror Eop)) as [_ Sj]. apply N.leb_gt in Sj.
+    rewrite Hb. rewrite <- Hl, Hop. rewrite Eop, instr_jif. rewrite Es, Hs.
+    rewrite Eop in Hl. change (op_len OpJumpIfFalse) with 3 in Hl. rewrite Hl.
+    destruct b; cbn [truthy].
+    + cbn [sok]. intros _. left. unfold set_stk. cbn [stk]. exact Hgd.
+    + rewrite Sj. cbn [sok]. intros _. left. unfold set_stk. cbn [stk]. exact Hgd.
+Qed.
+
+End Body.
+
+(* every function that can be called has an accepted annotation *)
+Hypothesis Hfuncs : Forall (fun nf => has_ann consts (fcode (snd nf))) funcs.
+
+Lemma ufunc_get_in : forall name (l : list (str * ufunc)) uf, ufunc_get name l = Some uf -> exists n, In (n, uf) l.
+Proof.
+  intros name. induction l as [|[n f] l IH]; intros uf H; [discriminate|].
+  cbn [ufunc_get] in H. destruct (str_eqb n name).
+  - injection H as <-. exists n. left. reflexivity.
+  - destruct (IH uf H) as (n' & Hin). exists n'. right. exact Hin.
+Qed.
+
+Lemma sound_calls_gen : forall fuel code is a,
+  VP.chain code 0 is -> check consts is is (lenN code) a = VOk ->
+  forall ip m out m', VP.Inv code is a ip m -> ex fuel code ip m = (out, m') ->
+  calls_push fuel code ip m -> out <> OErr EInternal.
+Proof.
+  induction fuel as [|f IH]; intros code is a Hch Hck ip m out m' HI H Hcp.
+  - cbn [exec] in H. unfold fail in H. injection H as <- _. discriminate.
+  - rewrite OS.exec_S_step in H. cbn [calls_push] in Hcp.
+    pose proof (step_sound code is a Hch Hck ip m HI) as SS.
+    destruct (stp code ip m) as [out0 m0|ip' m1|name args s m1 next]; cbn [OS.run_sres sok] in *.
+    + injection H as <- _. exact SS.
+    + destruct Hcp as (Hpush & Hcp). eapply (IH code is a Hch Hck ip' m1); [exact (SS Hpush)|exact H|exact Hcp].
+    + destruct (ufunc_get name funcs) as [uf|] eqn:Eu; [|injection H as <- _; discriminate].
+      destruct (negb (Nat.eqb (List.length (fparams uf)) (List.length args))); [injection H as <- _; discriminate|].
+      destruct (negb (max_call_depth =? 0) && (max_call_depth <=? N.of_nat (env_depth (menv m1))));
+        [injection H as <- _; discriminate|].
+      cbv zeta in Hcp. destruct Hcp as (Hcc & Hcp).
+      set (mc := mkM [] (declare_all (env_push_frame (menv m1)) (fparams uf) args) (trace m1) (polls m1)) in *.
+      (* the callee *)
+      destruct (ufunc_get_in _ _ _ Eu) as (n & Hin).
+      rewrite Forall_forall in Hfuncs. pose proof (Hfuncs _ Hin) as (isc & ac & Dc & Hac & Hckc). cbn [snd] in *.
+      pose proof (VP.decode_ok_chain _ _ Dc) as Hchc.
+      assert (HIc : VP.Inv (fcode uf) isc ac 0 mc).
+      { left. destruct isc as [|i0 isc'].
+        - left. cbn [VP.chain] in Hchc. lia.
+        - right. exists [], i0, isc', 0. cbn [VP.chain] in Hchc. destruct Hchc as (H0 & _).
+          repeat split; auto. unfold mc. cbn [stk]. unfold lenN. cbn. lia. }
+      destruct (ex f (fcode uf) 0 mc) as [[outc|e] m2] eqn:Ec.
+      * destruct Hcp as (Hnv & Hcp).
+        assert (Hst : (match outc with VVoid => s | _ => outc :: s end) = outc :: s)
+          by (destruct outc; try reflexivity; contradiction).
+        rewrite Hst in H.
+        eapply (IH code is a Hch Hck next _); [|exact H|exact Hcp].
+        left. cbn [stk]. eapply VP.good_mono; [exact SS|]. rewrite lenN_cons. lia.
+      * injection H as <- _. exact (IH _ _ _ Hchc Hckc 0 mc _ _ HIc Ec Hcc).
+Qed.
+
+(* (A) the verifier is sound for bodies with calls: an accepted body, every callable function
+   accepted, started on an empty stack; if every call executed in the run left a value, the run
+   does not end in the machine's internal error *)
+Theorem verifier_sound_calls : forall code, has_ann consts code ->
+  forall fuel m out m', stk m = [] ->
+  ex fuel code 0 m = (out, m') -> calls_push fuel code 0 m -> out <> OErr EInternal.
+Proof.
+  intros code (is & a & D & Ha & Hck) fuel m out m' Hs H Hcp.
+  pose proof (VP.decode_ok_chain _ _ D) as Hch.
+  eapply (sound_calls_gen fuel code is a Hch Hck 0 m); [|exact H|exact Hcp].
+  left. destruct is as [|i0 is'].
+  - left. cbn [VP.chain] in Hch. lia.
+  - right. exists [], i0, is', 0. cbn [VP.chain] in Hch. destruct Hch as (H0 & _).
+    repeat split; auto. lia.
+Qed.
+
+End Calls.
+
+(* ------------------------------------------------------------------ *)
+(* PART 9: programs *)
+
+(* what the executable verifier accepts has an annotation in the above sense *)
+Lemma verify_body_has_ann : forall consts isf code, verify_body consts isf code = VOk -> has_ann consts code.
+Proof.
+  intros consts isf code H. destruct (VP.verify_body_inv _ _ _ H) as (is & D & R).
+  destruct R as [[-> _]|(_ & _ & a & Hf & Hck)].
+  - exists [], [(0, 0)]. split; [exact D|split; reflexivity].
+  - exists is, a. split; [exact D|split; [|exact Hck]].
+    exact (VP.flow_entry0 _ _ _ _ (eq_refl : VP.entry0 [(0, 0)]) Hf).
+Qed.
+
+Lemma verify_program_has_ann : forall p, verify_program p = VOk ->
+  has_ann (pconsts p) (pmain p) /\ Forall (fun nf => has_ann (pconsts p) (fcode (snd nf))) (pfuncs p).
+Proof.
+  intros p H. unfold verify_program in H.
+  destruct (verify_body (pconsts p) false (pmain p)) eqn:Em; [|discriminate].
+  split; [eapply verify_body_has_ann; exact Em|].
+  revert H. generalize (pfuncs p). induction l as [|[n f] l IH]; intro H; [constructor|].
+  destruct (verify_body (pconsts p) true (fcode f)) eqn:Ef; [|discriminate].
+  constructor; [eapply verify_body_has_ann; exact Ef|apply IH; exact H].
+Qed.
+
+(* the empty-stack start of VM.Run *)
+Lemma run_main_sound : forall o consts funcs fns obj main,
+  has_ann consts main -> Forall (fun nf => has_ann consts (fcode (snd nf))) funcs ->
+  forall fuel m out m',
+  run_main o consts funcs fns obj fuel main m = (out, m') ->
+  calls_push o consts funcs fns obj fuel main 0 (mkM [] (env_truncate (menv m) 0) (trace m) (polls m)) ->
+  out <> OErr EInternal.
+Proof.
+  intros o consts funcs fns obj main Hm Hf fuel m out m' H Hcp. unfold run_main in H.
+  destruct main as [|b main']; [injection H as <- _; discriminate|].
+  destruct (exec o consts funcs fns obj fuel (b :: main') 0 _) as [out1 m1] eqn:E.
+  injection H as <- _.
+  eapply (verifier_sound_calls o consts funcs fns obj Hf (b :: main') Hm); [|exact E|exact Hcp]. reflexivity.
+Qed.
+
+(* (A) for accepted programs: if the executable verifier accepts the program, no run of the main
+   body or of a function body from an empty stack, in which every executed call left a value,
+   ends in the machine's internal error *)
+Theorem verifier_sound_calls_program : forall p, verify_program p = VOk ->
+  forall code, body_of p code ->
+  forall o fns obj fuel m out m', stk m = [] ->
+  exec o (pconsts p) (pfuncs p) fns obj fuel code 0 m = (out, m') ->
+  calls_push o (pconsts p) (pfuncs p) fns obj fuel code 0 m -> out <> OErr EInternal.
+Proof.
+  intros p Hv code Hb o fns obj fuel m out m' Hs H Hcp.
+  destruct (verify_program_has_ann p Hv) as (Hm & Hf).
+  eapply (verifier_sound_calls o (pconsts p) (pfuncs p) fns obj Hf code); [|exact Hs|exact H|exact Hcp].
+  destruct Hb as [->|(nf & Hin & ->)]; [exact Hm|]. rewrite Forall_forall in Hf. exact (Hf nf Hin).
+Qed.
+
+(* (A)+(B): compiled code of a well-moded script never fails with the machine's internal error
+   for reasons other than the script's own use of value-less calls *)
+Theorem compiled_never_underflows : forall fuelc (ast : program) p,
+  well_moded ast = true -> compile_program fuelc ast = CompOk p ->
+  forall code, body_of p code ->
+  forall o fns obj fuel m out m', stk m = [] ->
+  exec o (pconsts p) (pfuncs p) fns obj fuel code 0 m = (out, m') ->
+  calls_push o (pconsts p) (pfuncs p) fns obj fuel code 0 m -> out <> OErr EInternal.
+Proof.
+  intros fuelc ast p Hw Hc code Hb o fns obj fuel m out m' Hs H Hcp.
+  destruct (compiled_has_annotation fuelc ast p Hw Hc) as (Hm & Hf).
+  eapply (verifier_sound_calls o (pconsts p) (pfuncs p) fns obj Hf code); [|exact Hs|exact H|exact Hcp].
+  destruct Hb as [->|(nf & Hin & ->)]; [exact Hm|]. rewrite Forall_forall in Hf. exact (Hf nf Hin).
+Qed.
+
+Theorem compiled_run_never_underflows : forall fuelc (ast : program) p,
+  well_moded ast = true -> compile_program fuelc ast = CompOk p ->
+  forall o fns obj fuel m out m',
+  run_main o (pconsts p) (pfuncs p) fns obj fuel (pmain p) m = (out, m') ->
+  calls_push o (pconsts p) (pfuncs p) fns obj fuel (pmain p) 0
+             (mkM [] (env_truncate (menv m) 0) (trace m) (polls m)) ->
+  out <> OErr EInternal.
+Proof.
+  intros fuelc ast p Hw Hc o fns obj fuel m out m' H Hcp.
+  destruct (compiled_has_annotation fuelc ast p Hw Hc) as (Hm & Hf).
+  exact (run_main_sound o (pconsts p) (pfuncs p) fns obj (pmain p) Hm Hf fuel m out m' H Hcp).
+Qed.
+
+(* ------------------------------------------------------------------ *)
+(* the side condition on calls cannot be dropped: `x = f();` is well-moded, compiles, is accepted
+   by the verifier, and - when the host function f returns nothing - underflows; and it is
+   exactly `calls_push` that fails for this run.  With a function that returns a value the run
+   satisfies `calls_push` (the condition is not vacuous). *)
+
+Definition void_call_ast : program := [SExpr (EAssign (L "x") (ECall (EIdent (L "f")) []))].
+
+Definition quiet_stdlib : stdlib :=
+  mkStdlib (fun _ => None) (fun _ => None) (fun _ _ => None) (fun _ _ => None) (fun _ _ _ => None)
+           (fun _ => None) (fun _ => None) (fun _ => None) (fun _ _ => None) (fun _ => None) (fun _ => None).
+
+Lemma void_call_underflows :
+  exists p, well_moded void_call_ast = true /\ compile_program 20 void_call_ast = CompOk p /\
+    verify_program p = VOk /\
+    let m0 := mkM [] (mkEnv [] []) [] None in
+    (exists m', exec quiet_stdlib (pconsts p) (pfuncs p) [(L "f", FHost HKVoid)] HNil 20 (pmain p) 0 m0
+                = (OErr EInternal, m')) /\
+    ~ calls_push quiet_stdlib (pconsts p) (pfuncs p) [(L "f", FHost HKVoid)] HNil 20 (pmain p) 0 m0 /\
+    calls_push quiet_stdlib (pconsts p) (pfuncs p) [(L "f", FHost (HKConst (VInt 1)))] HNil 20 (pmain p) 0 m0.
+Proof.
+  eexists. split; [vm_compute; reflexivity|]. split; [vm_compute; reflexivity|].
+  split; [vm_compute; reflexivity|]. cbv zeta. split; [|split].
+  - eexists. vm_compute. reflexivity.
+  - intro H. cbn in H. destruct H as (_ & H & _). specialize (H eq_refl 0 eq_refl). discriminate.
+  - cbn. repeat split; try (let X := fresh in intros X; discriminate X).
+    intros _ arg Ha. injection Ha as <-. reflexivity.
+Qed.
+
+(* ------------------------------------------------------------------ *)
+(* the experiment that preceded the proof, kept as a regression: the executable verifier accepts
+   the compiled code of well-moded scripts covering every construct (residues of expression
+   statements inside loops and switch arms, `return` inside foreach inside while, a default arm in
+   the middle of a switch, `x++` as two statements, `local`, nested and redefined functions) *)
+
+Module Experiments.
+Definition i (n : Z) := EInt (L "1") n.
+Definition x := EIdent (L "x").
+Definition a := EIdent (L "a").
+Definition cnd := EInfix TLt x (i 5).
+Definition callf (args : list expr) := ECall (EIdent (L "f")) args.
+
+Definition accepted (ast : program) : bool :=
+  well_moded ast &&
+  match compile_program 300 ast with
+  | CompOk p => match verify_program p with VOk => true | VBad _ => false end
+  | _ => false
+  end.
+
+Definition scripts : list program :=
+  [ [SExpr (EWhile cnd [SExpr (i 3)])];
+    [SExpr (EForeach [] (L "v") a [SExpr (callf [EIdent (L "v")])])];
+    [SExpr (EWhile cnd [SExpr (EForeach (L "k") (L "v") a [SReturn (i 1)])])];
+    [SExpr (ESwitch x [(false, [i 1; i 2], [SExpr (i 7)]); (true, [], [SExpr (i 8); SExpr (callf [])]);
+                       (false, [i 3], [SReturn (i 4)])]); SExpr (i 9)];
+    [SExpr x; SExpr (EPostfix (L "x") TPlusPlus); SExpr x; SExpr (EPostfix (L "x") TMinusMinus)];
+    [SExpr (EFunction (L "g") [L "p"] [SExpr (ELocal (L "q")); SExpr (EAssign (L "q") (i 2)); SExpr (i 3);
+                                       SExpr (EIf cnd [SReturn (i 1)] None)]);
+     SExpr (ECall (EIdent (L "g")) [i 1])];
+    [SExpr (EInfix TPlusEq x (i 2)); SExpr (EAssign (L "y") (ETernary cnd (i 1) (callf [i 2; i 3])))];
+    [SExpr (EIf cnd [SExpr (i 3); SExpr (i 4)] (Some [SExpr (callf [])])); SExpr (EIf cnd [] None);
+     SReturn (EHash [(EStr (L "b"), i 1); (EStr (L "a"), EArray [i 1; x])])];
+    [SExpr (EFunction (L "g") [] [SReturn (i 1)]); SExpr (EFunction (L "h") [] []);
+     SExpr (EFunction (L "k") [] [SExpr (EWhile cnd [SReturn (i 2)])]);
+     SExpr (EFunction (L "n") [] [SExpr (EFunction (L "inner") [] [SExpr (i 3)]); SExpr (i 5)])];
+    [SExpr (EForeach (L "k") (L "v") a
+              [SExpr (i 3); SExpr (EForeach [] (L "w") (EIdent (L "v"))
+                                      [SExpr (i 4); SExpr x; SExpr (EPostfix (L "x") TPlusPlus)])]);
+     SExpr (i 1)];
+    [SExpr (ESwitch x []); SExpr (ESwitch x [(true, [], [SExpr (i 1)]); (true, [], [SExpr (i 2)])]);
+     SExpr (ESwitch (callf []) [(false, [], [SExpr (i 1)]); (false, [callf [i 1]], [])])];
+    [SExpr (EIndex (EArray [i 1]) (i 0)); SExpr (EPrefix TBang (EInfix TIn x a)); SExpr (ERegexp (L "a") (L "i"));
+     SExpr (EInfix TDotDot (i 1) (i 3)); SReturn (i 1); SExpr (i 2)];
+    [SExpr (EWhile cnd [SExpr (EIf cnd [SExpr (i 1)] (Some [SExpr (i 2); SExpr (i 3)]))]);
+     SExpr (EFunction (L "g") [] [SExpr (EIf cnd [SReturn (i 1)] (Some [SReturn (i 2)]))])];
+    [SExpr (ELocal (L "z"))];
+    [SExpr (EFunction (L "g") [] [SExpr (callf []); SReturn (i 1)]);
+     SExpr (EFunction (L "g") [] [SExpr x; SExpr (EPostfix (L "x") TPlusPlus)])] ].
+
+Lemma all_accepted : forallb accepted scripts = true.
+Proof. vm_compute. reflexivity. Qed.
+End Experiments.
